@@ -156,31 +156,51 @@ Example conformant_D61 :
 Proof. vm_compute. reflexivity. Qed.
 
 (* ---------- the wake-up loops of the two subsystems (deviations D62, D66) ---------- *)
-(* conformant variants: the function runs at the wake-up if the trigger time has come, else exactly at the trigger time *)
+(* conformant variants with a perfect clock: the function runs at the wake-up if the trigger time has come, else exactly at
+   the trigger time *)
+Definition perfect (u : Z) : Z := u.
+
 Lemma legacy_wake_conformant lu ul cfg f t u : d_legacy_gap_recheck cfg = false -> ul (lu t) = t ->
-  legacy_wake lu ul cfg (S (S f)) t u = Some (if ul u <? t then lu t else u).
+  legacy_wake lu ul perfect cfg (S (S f)) t u = Some (if ul u <? t then lu t else u).
 Proof.
-  intros H R. cbn [legacy_wake]. rewrite H. destruct (ul u <? t) eqn:E; [|reflexivity].
+  intros H R. cbn [legacy_wake]. unfold perfect. rewrite H. destruct (ul u <? t) eqn:E; [|reflexivity].
   replace (u + (lu t - u)) with (lu t) by lia. rewrite R, Z.ltb_irrefl. reflexivity.
 Qed.
 
 Lemma default_wake_conformant lu ul cfg f t adj u : d_newsub_adj_recheck cfg = false -> ul (lu t) = t ->
-  default_wake lu ul cfg (S (S f)) t adj u = Some (if (t <=? ul u) || (lu t - u <=? 1) then u else lu t).
+  default_wake lu ul perfect cfg (S (S f)) t adj u = Some (if (t <=? ul u) || (lu t - u <=? 1) then u else lu t).
 Proof.
-  intros H R. cbn [default_wake]. rewrite H. destruct ((t <=? ul u) || (lu t - u <=? 1)) eqn:E; [reflexivity|].
+  intros H R. cbn [default_wake]. unfold perfect. rewrite H. destruct ((t <=? ul u) || (lu t - u <=? 1)) eqn:E; [reflexivity|].
   replace (u + (lu t - u)) with (lu t) by lia. rewrite R, Z.leb_refl. reflexivity.
+Qed.
+
+(* whatever the wall clock does during the wait (steps back, slewing: any function [wall]), the conformant loops never run the
+   function before the wall clock has reached the trigger time (the default loop: at most its 1 us tolerance before) *)
+Lemma legacy_wake_not_early lu ul wall cfg fuel : forall t u r,
+  legacy_wake lu ul wall cfg fuel t u = Some r -> t <= ul (wall r).
+Proof.
+  induction fuel as [|f IH]; intros t u r H; [discriminate|]. cbn [legacy_wake] in H.
+  destruct (ul (wall u) <? t) eqn:E; [apply IH in H; exact H|]. apply Z.ltb_ge in E. inversion H; subst r. exact E.
+Qed.
+
+Lemma default_wake_not_early lu ul wall cfg fuel : d_newsub_adj_recheck cfg = false -> forall t adj u r,
+  default_wake lu ul wall cfg fuel t adj u = Some r -> t <= ul (wall r) \/ lu t - wall r <= 1.
+Proof.
+  intros D. induction fuel as [|f IH]; intros t adj u r H; [discriminate|]. cbn [default_wake] in H. rewrite D in H.
+  destruct ((t <=? ul (wall u)) || (lu t - wall u <=? 1)) eqn:E; [|apply IH in H; exact H].
+  inversion H; subst r. rewrite orb_true_iff, !Z.leb_le in E. exact E.
 Qed.
 
 (* D66: a daily cron at 03:00 on 2024-03-10 in America/New_York, wake-up 1 us early: the legacy loop runs the function at
    08:00 UTC = 04:00 EDT, one hour after the trigger time 03:00 EDT = 07:00 UTC *)
 Lemma refuted_D66 : exists t u,
-  legacy_wake (tz_lu ny2024) (tz_ul ny2024) as_code 5 t u = Some (tz_lu ny2024 t + HOUR) /\
-  legacy_wake (tz_lu ny2024) (tz_ul ny2024) all_off 5 t u = Some (tz_lu ny2024 t).
+  legacy_wake (tz_lu ny2024) (tz_ul ny2024) perfect as_code 5 t u = Some (tz_lu ny2024 t + HOUR) /\
+  legacy_wake (tz_lu ny2024) (tz_ul ny2024) perfect all_off 5 t u = Some (tz_lu ny2024 t).
 Proof. exists 1710039600000000, (1710054000000000 - 1). split; vm_compute; reflexivity. Qed.
 
 (* D62: a daily cron at 06:00 computed on 2024-11-02 12:00:01 EDT: next_time 2024-11-03 06:00, next_time_adj 07:00; waking at the
    right moment (06:00 EST = 11:00 UTC) the default loop sleeps another hour *)
 Lemma refuted_D62 : exists t adj u,
-  default_wake (tz_lu ny2024) (tz_ul ny2024) as_code 5 t adj u = Some (tz_lu ny2024 t + HOUR) /\
-  default_wake (tz_lu ny2024) (tz_ul ny2024) all_off 5 t adj u = Some (tz_lu ny2024 t).
+  default_wake (tz_lu ny2024) (tz_ul ny2024) perfect as_code 5 t adj u = Some (tz_lu ny2024 t + HOUR) /\
+  default_wake (tz_lu ny2024) (tz_ul ny2024) perfect all_off 5 t adj u = Some (tz_lu ny2024 t).
 Proof. exists 1730613600000000, 1730617200000000, 1730631600000000. split; vm_compute; reflexivity. Qed.
